@@ -47,7 +47,7 @@ CLAIMS = {
              "reachability via a walker GENERATED from the asts! table (Rust, real accessors) vs the Lean AstWalk model; the 39 "
              "LLVM files parse clean.",
         note="Partial: the converse (non-sentence => error) is proved only as the reporting discipline plus the type-level "
-             "converse; outside that it is decided case by case by the recogniser (testing, labelled). 11 deviations of the parser "
+             "converse; outside that it is decided case by case by the recogniser (testing, labelled). 10 deviations of the parser "
              "from the documented grammar are known findings (DESIGN.md §12.5); accessor reachability has no theorem.",
         tech="Lean 4 proof (abstract interpreter over token kinds + simulation theorem, per-rule contracts by mutual structural recursion) "
              "over a grammar table regenerated from the documentation + differential correspondence + Earley oracle",
